@@ -58,6 +58,26 @@ def same_event(a, b):
     return abs(float(sa[2]) - float(sb[2])) < 1e-9
 
 
+def impl_sweep_order(trace):
+    """Names of the taskers the implementation aborted in its final sweep, in its order: the trailing run of top-level
+    sends with control ABORT (3) in the harness trace."""
+    depth, tops = 0, []
+    for e in trace:
+        if e[2] == "send":
+            if depth == 0:
+                tops.append((e[3], e[4]))
+            depth += 1
+        elif e[2] in ("sent", "raised"):
+            depth -= 1
+    order = []
+    for name, control in reversed(tops):
+        if control != 3:
+            break
+        order.append(name)
+    order.reverse()
+    return order
+
+
 def run_both(plan, crash_rec=None, fix_suspended_exit=True):
     prog = plan["program"]
     script = emit(prog)
@@ -65,7 +85,8 @@ def run_both(plan, crash_rec=None, fix_suspended_exit=True):
     et = env_table(plan.get("env"))
     capticks = plan.get("ticks", 50) + 12
     res = run_script(script, period=float(plan["P"]), env_table=et, crash_rec=crash_rec, cap=float(capticks * P) - float(P) / 4)
-    model = Model(prog, P, env_table=et, max_ticks=capticks + 50, fix_suspended_exit=fix_suspended_exit)
+    model = Model(prog, P, env_table=et, max_ticks=capticks + 50, fix_suspended_exit=fix_suspended_exit,
+                  sweep_order=impl_sweep_order(res.trace) if res.built else None)
     model.cap = capticks * P - P / 4
     merr = None
     try:
